@@ -26,6 +26,7 @@ def run(chk, scratch):
                             ("ProcTree_killchild_live.cfg", "StopReturns", "kill-child (must violate StopReturns)"),
                             ("ProcTree_nodelay_live.cfg", "StopReturns", "kill-tree without bounded wait (must violate StopReturns)"),
                             ("ProcTree_nogroup.cfg", "AfterReturnNoSurvivor", "no process group for a command run through a translator (must violate AfterReturnNoSurvivor)"),
+                            ("ProcTree_stalewaited.cfg", "AfterReturnNoSurvivor", "a re-used object whose cancellation signals nobody (must violate AfterReturnNoSurvivor)"),
                             ("ProcTree_termwait.cfg", "StopReturns", "the kill waits for the direct child to die of SIGTERM (must violate StopReturns)"),
                             ("ProcTree_ascoded.cfg", "AfterReturnNoSurvivor", "as coded: nobody to signal once Execute has reaped a child that exited by itself (must violate AfterReturnNoSurvivor)")):
         r = vlib.run_tlc(scratch, [SPEC], "ProcTree", cfg, workers=4, timeout=600, fast=True)
@@ -47,6 +48,9 @@ def run(chk, scratch):
     pick = rnd.sample(hard, n_hard) + rnd.sample(scen, n_any)
     if not any(s["rootIgnTerm"] for s in pick):
         pick += rnd.sample([s for s in scen if s["rootIgnTerm"]], 12)
+    if sum(1 for s in pick if s["reused"] and s["startMode"] == "execute") < 8:
+        pick += rnd.sample([s for s in scen if s["reused"] and s["startMode"] == "execute"], 8)
+    chk.cov["trees_run_on_a_reused_object"] = sum(1 for s in pick if s["reused"])
     chk.cov["trees_whose_direct_child_ignores_sigterm"] = sum(1 for s in pick if s["rootIgnTerm"])
     chk.cov["trees_run_through_a_command_translator"] = sum(1 for s in pick if s["launcher"] == "translated")
     chk.sample({"scenario": pick[0]})
